@@ -47,8 +47,12 @@ M("c20_repeated_keys_last", ["C20"], (G, "        if isinstance(value, (list, tu
 # ---- own mutants that need something specific to manifest
 # request method compared case-insensitively: 'get' is dispatched
 M("c20_method_upper", ["C20"], (G, "    method = environ.get(\"REQUEST_METHOD\")\n", "    method = (environ.get(\"REQUEST_METHOD\") or \"\").upper()\n"))
-# path prefix test without the slash: /pyrox/<obj>/<member> reaches the name server when the pattern is empty
-M("c20_prefix_without_slash", ["C20"], (G, "    if path.startswith(\"pyro/\"):", "    if path.startswith(\"pyro\") and len(path) > 5:"))
+# path prefix tested with an unanchored-dot regex: /pyrox/<obj>/<member> and /pyro./... are dispatched (object name "/<obj>":
+# reaches the name server only when the expose pattern is empty)
+M("c20_prefix_regex_dot", ["C20"], (G, "    if path.startswith(\"pyro/\"):", "    if re.match(r\"pyro.\", path):"))
+# $key is removed from the parameters even when no gateway key is configured (then it is an ordinary query parameter)
+M("c20_key_param_always_dropped", ["C20"], (G, "        if \"$key\" in parameters:\n            del parameters[\"$key\"]\n    if pyro_app.ns_regex",
+                                            "    if \"$key\" in parameters:\n        del parameters[\"$key\"]\n    if pyro_app.ns_regex"))
 # key compared case-insensitively
 M("c20_key_case_insensitive", ["C20"], (G, "        if gateway_key != pyro_app.gateway_key:", "        if gateway_key.lower() != pyro_app.gateway_key.lower():"))
 # key stripped before comparing (' secret' accepted)
